@@ -146,6 +146,32 @@ type scenarioData struct {
 	Requested  []uint64      `json:"requested"`
 	Answers    [][][2]uint64 `json:"answers"`
 	AnswersIdx [][][2]uint64 `json:"answers_idx"`
+	// cache history scenarios: every completed operation on a tracked root and every clean
+	History []histOp `json:"history,omitempty"`
+}
+
+// histOp is one completed operation of an observed concurrent history (coq/Model/C17_Cache.v, record hop).
+type histOp struct {
+	Kind  uint64 `json:"kind"`  // 0 set (SetBlockRootToSlot / block event), 1 lookup (BlockRootToSlot), 2 clean, 3 ExecutionChainHead (Key: height encoded in the hash returned, Val: height returned)
+	Key   uint64 `json:"key"`   // number of the root
+	Val   uint64 `json:"val"`   // set: slot; clean: minimum slot; lookup: the slot the node answers (if Fill)
+	Res   int64  `json:"res"`   // lookup: slot returned, -1 = error
+	Fill  bool   `json:"fill"`  // lookup: the node knows the root
+	Asked bool   `json:"asked"` // lookup: the node was asked (the read section missed)
+	Inv   uint64 `json:"inv"`   // stamp taken before the call
+	Resp  uint64 `json:"resp"`  // stamp taken after the return
+}
+
+func historyTerm(h []histOp) string {
+	items := make([]string, 0, len(h))
+	for _, o := range h {
+		res := None()
+		if o.Res >= 0 {
+			res = Some(N(uint64(o.Res)))
+		}
+		items = append(items, App("mk_hop", N(o.Kind), N(o.Key), N(o.Val), res, Bool(o.Fill), Bool(o.Asked), N(o.Inv), N(o.Resp)))
+	}
+	return List(items)
 }
 
 func parseData(text string) *scenarioData {
@@ -243,6 +269,10 @@ func runScenario(name string) observed {
 		o.report = head(hangReport(text), 2400)
 	case o.broken:
 		o.report = head(text, 2400)
+	case o.data != nil && len(o.data.History) > 0:
+		// not a verdict (the verdict is lin_ok / history_sequential in coq/Check/C17.v): the lookups that missed a
+		// mapping established before they began, for the reader of the replay file
+		o.report = head(lostUpdates(o.data.History), 2400)
 	}
 	return o
 }
@@ -336,13 +366,17 @@ func TestC17(t *testing.T) {
 			d = &scenarioData{}
 		} else {
 			col.Count("answers:" + n)
+			if len(d.History) > 0 {
+				col.Count("history:" + n)
+			}
 		}
 		id := col.NextID()
 		col.Add(Case{
 			Term: Record("c_id", N(id), "c_service", fmt.Sprintf("%q", scenarios[n].service), "c_scenario", fmt.Sprintf("%q", n),
 				"c_race", Bool(o.race), "c_hang", Bool(o.hang), "c_crash", Bool(o.crash),
 				"c_listings", nLists(d.Listings), "c_active", nList(d.Active), "c_requested", nList(d.Requested),
-				"c_answers", answerLists(d.Answers), "c_answers_idx", answerLists(d.AnswersIdx)),
+				"c_answers", answerLists(d.Answers), "c_answers_idx", answerLists(d.AnswersIdx),
+				"c_history", historyTerm(d.History)),
 			Key: fmt.Sprintf("%s#%d", n, reps[n]), Nontrivial: true, Tags: []string{"scenario:" + n, "service:" + scenarios[n].service},
 			Sample: map[string]any{"input": in, "observed": map[string]any{"race": o.race, "hang": o.hang, "crash": o.crash, "report": o.report, "data": o.data}},
 		})
@@ -351,6 +385,54 @@ func TestC17(t *testing.T) {
 	if err := col.Flush(); err != nil {
 		t.Fatal(err)
 	}
+}
+
+// lostUpdates names the lookups of a history whose read section missed (error, or the node was asked) although a
+// set or an answered lookup of the same root had returned before the lookup was called and no clean that removes
+// the slot overlaps or lies between the two.
+func lostUpdates(h []histOp) string {
+	var sb strings.Builder
+	for _, l := range h {
+		if l.Kind == 3 && l.Key != l.Val {
+			fmt.Fprintf(&sb, "torn read: ExecutionChainHead returned the hash of execution block %d with height %d (stamps %d..%d): the two halves of no single head\n", l.Key, l.Val, l.Inv, l.Resp)
+		}
+	}
+	for _, l := range h {
+		if l.Kind != 1 || !(l.Asked || l.Res < 0) {
+			continue
+		}
+		for _, w := range h {
+			var v uint64
+			switch {
+			case w.Key != l.Key || w.Resp >= l.Inv:
+				continue
+			case w.Kind == 0:
+				v = w.Val
+			case w.Kind == 1 && w.Res >= 0:
+				v = uint64(w.Res)
+			default:
+				continue
+			}
+			explained := false
+			for _, c := range h {
+				if c.Kind == 2 && v < c.Val && !(c.Resp < w.Inv) && !(l.Resp < c.Inv) {
+					explained = true
+				}
+			}
+			if !explained {
+				what := map[uint64]string{0: "a set", 1: "an answered lookup"}[w.Kind]
+				fmt.Fprintf(&sb, "lost update: the lookup of key %d called at stamp %d did not find it in the store, although %s had put %d -> %d there and returned at stamp %d, and no clean with a minimum above %d runs in between; cleans:", l.Key, l.Inv, what, w.Key, v, w.Resp, v)
+				for _, c := range h {
+					if c.Kind == 2 && !(c.Resp < w.Inv) && !(l.Resp < c.Inv) {
+						fmt.Fprintf(&sb, " [stamps %d..%d, minimum %d]", c.Inv, c.Resp, c.Val)
+					}
+				}
+				sb.WriteString("\n")
+				break
+			}
+		}
+	}
+	return sb.String()
 }
 
 func raceReport(text string) string {
